@@ -1,5 +1,5 @@
-(* C07_borders: the ranges built by getCompactBorders for the configurations without skipped prefixes and
-   with one skipped prefix (the general statement is kept as C07_borders_full_statement in Props/C07.v). *)
+(* C07_borders: the ranges built by getCompactBorders (with the normalisation of the skipped prefixes) are exactly
+   the keys in charge, for every configuration. *)
 From KB Require Import Base.Cases Model.Coder Model.CompactSys Model.C07Cases Proofs.Coder.
 Local Open Scope N_scope.
 
@@ -41,98 +41,8 @@ Proof.
   unfold kr_cmp. destruct (bcmp a b); reflexivity.
 Qed.
 
-(* no skipped prefix: one range, exactly the keys under prefix/ *)
-Theorem borders_none p k :
-  alpha p -> alpha k -> last_is slash p = false ->
-  ranges_of p [] = [(p ++ [47], p ++ [48])] /\
-  existsb (fun lh => bleb (fst lh) k && bltb k (snd lh)) (ranges_of p []) = in_charge p [] k.
-Proof.
-  intros Hp Hk Hl.
-  assert (Ha : alpha (p ++ [47])) by (apply alpha_app; split; [exact Hp|exact alpha_47]).
-  assert (Hb : alpha (p ++ [48])) by (apply alpha_app; split; [exact Hp|exact alpha_48]).
-  assert (E : ranges_of p [] = [(p ++ [47], p ++ [48])]).
-  { unfold ranges_of, compact_borders. cbn [flat_map app]. unfold with_slash. rewrite Hl. change [slash] with [47].
-    rewrite prefix_end_slash. unfold sort_by. cbn [fold_right insert_by].
-    rewrite (enc_ltb _ _ Hb Ha).
-    assert (Hlt : bltb (p ++ [48]) (p ++ [47]) = false).
-    { unfold bltb. rewrite bcmp_app_same. reflexivity. }
-    rewrite Hlt. reflexivity. }
-  split; [exact E|]. rewrite E. cbn [existsb fst snd]. rewrite orb_false_r.
-  unfold in_charge, with_slash. rewrite Hl. change [slash] with [47]. cbn [existsb negb]. rewrite andb_true_r.
-  symmetry. apply slash_range; assumption.
-Qed.
-
-(* one skipped prefix s = p/t: two ranges, exactly the keys under prefix/ that are not under s/ *)
-Theorem borders_one p t k :
-  alpha p -> alpha t -> alpha k -> last_is slash p = false -> last_is slash (p ++ [47] ++ t) = false -> t <> [] ->
-  let s := p ++ [47] ++ t in
-  ranges_of p [s] = [(p ++ [47], s ++ [47]); (s ++ [48], p ++ [48])] /\
-  existsb (fun lh => bleb (fst lh) k && bltb k (snd lh)) (ranges_of p [s]) = in_charge p [s] k.
-Proof.
-  intros Hp Ht Hk Hl Hls Hne. cbv zeta. set (s := p ++ [47] ++ t). assert (Hls' : last_is slash s = false) by exact Hls.
-  assert (Hs : alpha s) by (unfold s; apply alpha_app; split; [exact Hp|apply alpha_app; split; [exact alpha_47|exact Ht]]).
-  set (a := p ++ [47]). set (b := p ++ [48]). set (c := s ++ [47]). set (d := s ++ [48]).
-  assert (Aa : alpha a) by (apply alpha_app; split; [exact Hp|exact alpha_47]).
-  assert (Ab : alpha b) by (apply alpha_app; split; [exact Hp|exact alpha_48]).
-  assert (Ac : alpha c) by (apply alpha_app; split; [exact Hs|exact alpha_47]).
-  assert (Ad : alpha d) by (apply alpha_app; split; [exact Hs|exact alpha_48]).
-  (* c and d have prefix a, hence lie in [a, b) *)
-  assert (Pc : has_prefix a c = true).
-  { unfold a, c, s. rewrite <- !app_assoc. cbn [app]. replace (p ++ 47 :: t ++ [47]) with ((p ++ [47]) ++ (t ++ [47])) by (rewrite <- app_assoc; reflexivity). apply has_prefix_app. }
-  assert (Pd : has_prefix a d = true).
-  { unfold a, d, s. rewrite <- !app_assoc. cbn [app]. replace (p ++ 47 :: t ++ [48]) with ((p ++ [47]) ++ (t ++ [48])) by (rewrite <- app_assoc; reflexivity). apply has_prefix_app. }
-  unfold a in Pc, Pd. rewrite (slash_range p c Hp Ac) in Pc. rewrite (slash_range p d Hp Ad) in Pd. fold a b in Pc, Pd.
-  apply andb_true_iff in Pc as [Pc1 Pc2]. apply andb_true_iff in Pd as [Pd1 Pd2].
-  assert (Lcd : bcmp c d = Lt) by (unfold c, d; rewrite bcmp_app_same; reflexivity).
-  assert (Lac : bcmp a c = Lt).
-  { unfold bleb in Pc1. destruct (bcmp a c) eqn:E; try discriminate; [|reflexivity].
-    apply bcmp_eq in E. exfalso. unfold a, c, s in E. rewrite <- !app_assoc in E. apply app_inv_head in E.
-    cbn [app] in E. injection E as E. destruct t; [congruence|discriminate]. }
-  assert (Lcb : bcmp c b = Lt) by (unfold bltb in Pc2; destruct (bcmp c b); try discriminate; reflexivity).
-  assert (Ldb : bcmp d b = Lt) by (unfold bltb in Pd2; destruct (bcmp d b); try discriminate; reflexivity).
-  assert (E : ranges_of p [s] = [(a, c); (d, b)]).
-  { unfold ranges_of, compact_borders. cbn [flat_map app]. unfold with_slash. rewrite Hl. fold s. rewrite Hls'.
-    change [slash] with [47]. rewrite !prefix_end_slash. fold a b c d.
-    assert (B1 : bltb d c = false) by (unfold bltb; rewrite (bcmp_antisym c d), Lcd; reflexivity).
-    assert (B2 : bltb c b = true) by (unfold bltb; rewrite Lcb; reflexivity).
-    assert (B3 : bltb d b = true) by (unfold bltb; rewrite Ldb; reflexivity).
-    assert (B4 : bltb c a = false) by (unfold bltb; rewrite (bcmp_antisym a c), Lac; reflexivity).
-    unfold sort_by. cbn [fold_right insert_by].
-    rewrite (enc_ltb d c Ad Ac), B1. cbn [insert_by]. rewrite (enc_ltb c b Ac Ab), B2.
-    cbn [insert_by]. rewrite (enc_ltb d b Ad Ab), B3.
-    cbn [insert_by]. rewrite (enc_ltb c a Ac Aa), B4.
-    reflexivity. }
-  split; [exact E|]. rewrite E. cbn [existsb fst snd]. rewrite orb_false_r.
-  unfold in_charge. cbn [existsb]. unfold with_slash. rewrite Hl, Hls'. change [slash] with [47]. rewrite orb_false_r.
-  rewrite (slash_range p k Hp Hk), (slash_range s k Hs Hk). fold a b c d.
-  (* a < c < d < b: [a,c) u [d,b) = [a,b) minus [c,d) *)
-  assert (Neg : forall x y, bltb x y = negb (bleb y x)).
-  { intros x y. unfold bltb, bleb. rewrite (bcmp_antisym x y). destruct (bcmp x y); reflexivity. }
-  assert (LtT : forall x y z, bltb x y = true -> bcmp y z = Lt -> bltb x z = true).
-  { intros x y z H1 H2. unfold bltb in *. destruct (bcmp x y) eqn:Exy; try discriminate. rewrite (bcmp_lt_trans _ _ _ Exy H2). reflexivity. }
-  assert (LeT : forall x y z, bcmp x y = Lt -> bleb y z = true -> bleb x z = true).
-  { intros x y z H1 H2. unfold bleb in *. destruct (bcmp y z) eqn:Eyz; try discriminate.
-    - apply bcmp_eq in Eyz. subst. rewrite H1. reflexivity.
-    - rewrite (bcmp_lt_trans _ _ _ H1 Eyz). reflexivity. }
-  destruct (bltb k c) eqn:Ekc.
-  - (* k < c *)
-    pose proof (LtT _ _ _ Ekc Lcd) as Ekd. pose proof (LtT _ _ _ Ekd Ldb) as Ekb.
-    assert (Edk : bleb d k = false) by (rewrite Neg in Ekd; apply negb_true_iff in Ekd; exact Ekd).
-    assert (Eck : bleb c k = false) by (rewrite Neg in Ekc; apply negb_true_iff in Ekc; exact Ekc).
-    rewrite Edk, Ekb, Eck. cbn [andb orb negb]. rewrite !andb_true_r, orb_false_r. reflexivity.
-  - assert (Eck : bleb c k = true) by (rewrite Neg in Ekc; apply negb_false_iff in Ekc; exact Ekc).
-    pose proof (LeT _ _ _ Lac Eck) as Eak. rewrite Eck, Eak. cbn [andb orb].
-    destruct (bleb d k) eqn:Edk.
-    + (* d <= k *)
-      assert (Ekd : bltb k d = false) by (rewrite Neg, Edk; reflexivity).
-      rewrite Ekd. cbn [andb negb]. rewrite andb_true_r. reflexivity.
-    + (* c <= k < d *)
-      assert (Ekd : bltb k d = true) by (rewrite Neg, Edk; reflexivity).
-      rewrite Ekd. cbn [andb negb]. rewrite andb_false_r. reflexivity.
-Qed.
-
 (* ================================================================================================ *)
-(* any number of pairwise non-nested skipped prefixes under prefix/                                   *)
+(* a parity count over the sorted borders                                                            *)
 (* ================================================================================================ *)
 From Coq Require Import Sorted.
 
@@ -299,69 +209,180 @@ Proof.
   cbn [existsb orb]. apply IH. exact Hf'.
 Qed.
 
-Lemma with_slash_noslash p : last_is slash p = false -> with_slash p = p ++ [47].
-Proof. intros H. unfold with_slash. rewrite H. reflexivity. Qed.
 
-Lemma pairwise_unrelated_pairs sk k :
-  Forall (fun s => last_is slash s = false) sk -> pairwise_unrelated sk = true ->
-  ForallOrdPairs (fun x y => x && y = false) (map (fun s => has_prefix (s ++ [47]) k) sk).
+(* ================================================================================================ *)
+(* the normalisation keeps the outermost skipped prefixes                                             *)
+(* ================================================================================================ *)
+
+Lemma has_prefix_refl s : has_prefix s s = true.
+Proof. induction s as [|x s IH]; [reflexivity|]. cbn [has_prefix]. rewrite N.eqb_refl. exact IH. Qed.
+
+Definition unrel2 (a b : bytes) : Prop := has_prefix a b = false /\ has_prefix b a = false.
+Definition unrel (l : list bytes) : Prop := ForallOrdPairs unrel2 l.
+
+Lemma FOP_filter {A} (R : A -> A -> Prop) f l : ForallOrdPairs R l -> ForallOrdPairs R (filter f l).
 Proof.
-  induction sk as [|s sk IH]; intros Hl Hp; cbn [map]; [constructor|].
-  inversion Hl as [|? ? Hs Hl']; subst. cbn [pairwise_unrelated] in Hp. apply andb_true_iff in Hp as [Hp1 Hp2].
-  constructor; [|apply IH; assumption].
+  induction 1 as [|x l Hf Hp IH]; cbn [filter]; [constructor|].
+  destruct (f x); [|exact IH]. constructor; [|exact IH].
+  apply Forall_forall. intros y Hy. apply filter_In in Hy as [Hy _]. rewrite Forall_forall in Hf. apply Hf. exact Hy.
+Qed.
+
+Lemma FOP_snoc {A} (R : A -> A -> Prop) l x : ForallOrdPairs R l -> (forall y, In y l -> R y x) -> ForallOrdPairs R (l ++ [x]).
+Proof.
+  induction 1 as [|z l Hf Hp IH]; intros Hx; cbn [app]; [constructor; [constructor|constructor]|].
+  constructor; [|apply IH; intros y Hy; apply Hx; right; exact Hy].
+  apply Forall_app. split; [exact Hf|constructor; [apply Hx; left; reflexivity|constructor]].
+Qed.
+
+Lemma add_outer_unrel acc s : unrel acc -> unrel (add_outer acc s).
+Proof.
+  intros H. unfold add_outer. destruct (existsb (fun t => has_prefix t s) acc) eqn:E; [exact H|].
+  apply FOP_snoc; [apply FOP_filter; exact H|].
+  intros y Hy. apply filter_In in Hy as [Hy Hn]. apply negb_true_iff in Hn. split; [|exact Hn].
+  destruct (has_prefix y s) eqn:Ey; [|reflexivity]. exfalso.
+  assert (existsb (fun t => has_prefix t s) acc = true) by (apply existsb_exists; eauto). congruence.
+Qed.
+
+Lemma add_outer_sub acc s t : In t (add_outer acc s) -> In t acc \/ t = s.
+Proof.
+  unfold add_outer. destruct (existsb _ acc); [auto|]. intros H. apply in_app_iff in H as [H|[H|[]]]; [|auto].
+  apply filter_In in H as [H _]. auto.
+Qed.
+
+Lemma add_outer_cover acc s x :
+  (exists t, In t acc /\ has_prefix t x = true) \/ x = s ->
+  exists t, In t (add_outer acc s) /\ has_prefix t x = true.
+Proof.
+  unfold add_outer. destruct (existsb (fun t => has_prefix t s) acc) eqn:E.
+  - intros [H | ->]; [exact H|]. apply existsb_exists in E. exact E.
+  - intros [(t & Ht & Hp) | ->].
+    + destruct (has_prefix s t) eqn:Est.
+      * exists s. split; [apply in_app_iff; right; left; reflexivity|eapply prefix_trans; eauto].
+      * exists t. split; [apply in_app_iff; left; apply filter_In; split; [exact Ht|rewrite Est; reflexivity]|exact Hp].
+    + exists s. split; [apply in_app_iff; right; left; reflexivity|apply has_prefix_refl].
+Qed.
+
+Lemma outer_fold ss : forall acc,
+  unrel acc ->
+  unrel (fold_left add_outer ss acc) /\
+  (forall t, In t (fold_left add_outer ss acc) -> In t acc \/ In t ss) /\
+  (forall x, (exists t, In t acc /\ has_prefix t x = true) \/ In x ss ->
+             exists t, In t (fold_left add_outer ss acc) /\ has_prefix t x = true).
+Proof.
+  induction ss as [|s ss IH]; intros acc Hu; cbn [fold_left].
+  - split; [exact Hu|]. split; [auto|]. intros x [H|[]]. exact H.
+  - destruct (IH (add_outer acc s) (add_outer_unrel acc s Hu)) as (I1 & I2 & I3). split; [exact I1|]. split.
+    + intros t Ht. destruct (I2 t Ht) as [H|H]; [|right; right; exact H].
+      destruct (add_outer_sub acc s t H) as [H' | ->]; [left; exact H'|right; left; reflexivity].
+    + intros x [H | [-> | H]].
+      * apply I3. left. apply add_outer_cover. left; exact H.
+      * apply I3. left. apply add_outer_cover. right; reflexivity.
+      * apply I3. right; exact H.
+Qed.
+
+Lemma outer_spec ss :
+  unrel (outer_prefixes ss) /\ (forall t, In t (outer_prefixes ss) -> In t ss) /\
+  (forall x, In x ss -> exists t, In t (outer_prefixes ss) /\ has_prefix t x = true).
+Proof.
+  destruct (outer_fold ss [] (FOP_nil _)) as (I1 & I2 & I3). split; [exact I1|]. split.
+  - intros t Ht. destruct (I2 t Ht) as [[]|H]; exact H.
+  - intros x Hx. apply I3. right; exact Hx.
+Qed.
+
+(* every with_slash'ed prefix is r ++ "/" *)
+Definition slashed (e : bytes) : Prop := exists r, e = r ++ [47] /\ alpha r.
+
+Lemma last_is_true c : forall q, last_is c q = true -> exists r, q = r ++ [c].
+Proof.
+  induction q as [|x q IH]; [discriminate|]. cbn [last_is]. destruct q as [|y q'].
+  - intros H. apply N.eqb_eq in H. subst. exists []. reflexivity.
+  - intros H. destruct (IH H) as (r & Hr). exists (x :: r). rewrite Hr. reflexivity.
+Qed.
+
+Lemma with_slash_slashed q : alpha q -> slashed (with_slash q).
+Proof.
+  intros Aq. unfold with_slash. destruct (last_is slash q) eqn:E.
+  - destruct (last_is_true _ _ E) as (r & ->). exists r. split; [reflexivity|]. apply alpha_app in Aq. apply Aq.
+  - exists q. split; [reflexivity|exact Aq].
+Qed.
+
+Lemma flat_borders es : Forall slashed es ->
+  flat_map (fun q => [q; prefix_end q]) es = borders_of (map (@removelast N) es) /\
+  Forall alpha (map (@removelast N) es) /\
+  map (fun r => r ++ [47]) (map (@removelast N) es) = es.
+Proof.
+  induction 1 as [|e es (r & -> & Ar) Hf (I1 & I2 & I3)]; [repeat split; constructor|].
+  cbn [flat_map map borders_of]. rewrite removelast_last, prefix_end_slash, I1, I3.
+  repeat split. constructor; assumption.
+Qed.
+
+Lemma existsb_map {A B} (f : B -> bool) (g : A -> B) l : existsb f (map g l) = existsb (fun x => f (g x)) l.
+Proof. induction l as [|x l IH]; [reflexivity|]. cbn [map existsb]. rewrite IH. reflexivity. Qed.
+
+Lemma unrel_pairs es k : unrel es -> ForallOrdPairs (fun x y => x && y = false) (map (fun e => has_prefix e k) es).
+Proof.
+  induction 1 as [|e es Hf Hp IH]; cbn [map]; [constructor|]. constructor; [|exact IH].
   apply Forall_forall. intros y Hy. apply in_map_iff in Hy as (u & <- & Hu).
-  rewrite forallb_forall in Hp1. specialize (Hp1 u Hu). rewrite Forall_forall in Hl'. specialize (Hl' u Hu).
-  rewrite (with_slash_noslash s Hs), (with_slash_noslash u Hl') in Hp1.
-  apply andb_true_iff in Hp1 as [N1 N2]. apply negb_true_iff in N1. apply negb_true_iff in N2.
-  destruct (has_prefix (s ++ [47]) k) eqn:E1; [|reflexivity].
-  destruct (has_prefix (u ++ [47]) k) eqn:E2; [|reflexivity].
+  rewrite Forall_forall in Hf. destruct (Hf u Hu) as [N1 N2].
+  destruct (has_prefix e k) eqn:E1; [|reflexivity]. destruct (has_prefix u k) eqn:E2; [|reflexivity].
   destruct (prefix_comparable _ _ _ E1 E2); congruence.
 Qed.
 
-(* C07_borders: for every configuration whose skipped prefixes are under prefix/ and pairwise non-nested, the
-   border pairs cover exactly the keys in charge *)
-Theorem borders_general p sk k :
-  alpha p -> Forall alpha sk -> alpha k -> last_is slash p = false ->
-  Forall (fun s => last_is slash s = false) sk -> good_config p sk = true ->
+(* C07_borders, every configuration: the border pairs cover exactly the keys under prefix/ that are under no
+   skipped prefix - nested, duplicated, out-of-range and range-covering skipped prefixes included *)
+Theorem borders_all p sk k :
+  alpha p -> Forall alpha sk -> alpha k ->
   existsb (fun lh => bleb (fst lh) k && bltb k (snd lh)) (ranges_of p sk) = in_charge p sk k.
 Proof.
-  intros Ap Ask Ak Hlp Hls Hg. unfold good_config in Hg. apply andb_true_iff in Hg as [Hunder Hpair].
-  (* the border list *)
-  assert (Eb : compact_borders p sk = sort_by elt (borders_of (p :: sk))).
-  { unfold compact_borders. f_equal. cbv zeta.
-    assert (H : forall qs, Forall (fun s => last_is slash s = false) qs ->
-              flat_map (fun q => [with_slash q; prefix_end (with_slash q)]) qs = borders_of qs).
-    { induction qs as [|q qs IH]; intros Hq; [reflexivity|]. inversion Hq as [|? ? H1 H2]; subst.
-      cbn [flat_map borders_of]. rewrite (with_slash_noslash q H1), prefix_end_slash, (IH H2). reflexivity. }
-    apply H. constructor; assumption. }
-  assert (Aall : Forall alpha (borders_of (p :: sk))).
-  { assert (H : forall qs, Forall alpha qs -> Forall alpha (borders_of qs)).
-    { induction qs as [|q qs IH]; intros Hq; [constructor|]. inversion Hq as [|? ? H1 H2]; subst.
+  intros Ap Ask Ak. unfold ranges_of, compact_borders, in_charge.
+  set (p' := with_slash p). set (ss := map with_slash sk).
+  assert (Ein : existsb (fun s => has_prefix (with_slash s) k) sk = existsb (fun s => has_prefix s k) ss)
+    by (unfold ss; rewrite existsb_map; reflexivity).
+  rewrite Ein.
+  assert (Sss : Forall slashed ss).
+  { unfold ss. apply Forall_forall. intros e He. apply in_map_iff in He as (q & <- & Hq). apply with_slash_slashed.
+    rewrite Forall_forall in Ask. apply Ask; exact Hq. }
+  destruct (existsb (fun s => has_prefix s p') ss) eqn:Eanc.
+  - (* a skipped prefix contains the whole range *)
+    cbn [pairs existsb]. apply existsb_exists in Eanc as (s & Hs & Hsp).
+    destruct (has_prefix p' k) eqn:Ep; [|reflexivity]. cbn [andb].
+    assert (existsb (fun s0 => has_prefix s0 k) ss = true); [|rewrite H; reflexivity].
+    apply existsb_exists. exists s. split; [exact Hs|eapply prefix_trans; eauto].
+  - set (inside := filter (fun s => has_prefix p' s) ss).
+    destruct (outer_spec inside) as (Hun & Hsub & Hcov). set (outer := outer_prefixes inside) in *.
+    assert (Ses : Forall slashed (p' :: outer)).
+    { constructor; [apply with_slash_slashed; exact Ap|]. apply Forall_forall. intros e He.
+      specialize (Hsub e He). apply filter_In in Hsub as [Hsub _]. rewrite Forall_forall in Sss. apply Sss; exact Hsub. }
+    destruct (flat_borders _ Ses) as (F1 & F2 & F3). rewrite F1.
+    set (rs := map (@removelast N) (p' :: outer)) in *.
+    assert (Aall : Forall alpha (borders_of rs)).
+    { clear -F2. induction F2 as [|q qs H1 H2 IH]; [constructor|].
       cbn [borders_of flat_map app]. constructor; [apply alpha_app; split; [exact H1|exact alpha_47]|].
-      constructor; [apply alpha_app; split; [exact H1|exact alpha_48]|apply IH; exact H2]. }
-    apply H. constructor; assumption. }
-  destruct (sort_sorted_b _ Aall) as (Hsorted & _).
-  assert (Heven : Nat.even (length (sort_by elt (borders_of (p :: sk)))) = true).
-  { rewrite length_sort. clear. generalize (p :: sk). induction l as [|q qs IH]; [reflexivity|]. cbn [borders_of flat_map app length]. exact IH. }
-  unfold ranges_of. rewrite Eb. fold (in_pairs k (sort_by elt (borders_of (p :: sk)))).
-  rewrite (in_pairs_odd k _ Hsorted Heven), cnt_sort, cnt_borders. cbn [map xor_all].
-  (* back to prefixes *)
-  rewrite <- (slash_range p k Ap Ak).
-  assert (Emap : map (fun q => bleb (q ++ [47]) k && bltb k (q ++ [48])) sk = map (fun s => has_prefix (s ++ [47]) k) sk).
-  { apply map_ext_in. intros s Hs. symmetry. apply slash_range; [|exact Ak]. rewrite Forall_forall in Ask. apply Ask; exact Hs. }
-  rewrite Emap, (xor_all_atmost1 _ (pairwise_unrelated_pairs sk k Hls Hpair)).
-  unfold in_charge. rewrite (with_slash_noslash p Hlp).
-  assert (Eex : existsb (fun b => b) (map (fun s => has_prefix (s ++ [47]) k) sk) = existsb (fun s => has_prefix (with_slash s) k) sk).
-  { clear -Hls. induction sk as [|s sk IH]; [reflexivity|]. inversion Hls as [|? ? H1 H2]; subst.
-    cbn [map existsb]. rewrite (with_slash_noslash s H1), (IH H2). reflexivity. }
-  rewrite Eex.
-  destruct (has_prefix (p ++ [47]) k) eqn:Ep; cbn [xorb andb].
-  - destruct (existsb _ sk); reflexivity.
-  - (* outside prefix/: outside every skipped prefix, which all lie under prefix/ *)
-    destruct (existsb (fun s => has_prefix (with_slash s) k) sk) eqn:Ee; [|reflexivity]. exfalso.
-    apply existsb_exists in Ee as (s & Hs & Hk). rewrite forallb_forall in Hunder. specialize (Hunder s Hs).
-    rewrite (with_slash_noslash p Hlp) in Hunder. rewrite Forall_forall in Hls. rewrite (with_slash_noslash s (Hls s Hs)) in Hk.
-    assert (Hps : has_prefix (p ++ [47]) (s ++ [47]) = true).
-    { apply has_prefix_spec in Hunder as (t & ->). rewrite <- app_assoc. apply has_prefix_app. }
-    rewrite (prefix_trans _ _ _ Hps Hk) in Ep. discriminate.
+      constructor; [apply alpha_app; split; [exact H1|exact alpha_48]|exact IH]. }
+    destruct (sort_sorted_b _ Aall) as (Hsorted & _).
+    assert (Heven : Nat.even (length (sort_by elt (borders_of rs))) = true).
+    { rewrite length_sort. clear. generalize rs. induction rs0 as [|q qs IH]; [reflexivity|]. cbn [borders_of flat_map app length]. exact IH. }
+    change (fun a b : bytes => bltb (encode a 0) (encode b 0)) with elt.
+    fold (in_pairs k (sort_by elt (borders_of rs))).
+    rewrite (in_pairs_odd k _ Hsorted Heven), cnt_sort, cnt_borders.
+    assert (Emap : map (fun q => bleb (q ++ [47]) k && bltb k (q ++ [48])) rs = map (fun e => has_prefix e k) (p' :: outer)).
+    { rewrite <- F3. rewrite map_map. apply map_ext_in. intros r Hr. symmetry. apply slash_range; [|exact Ak].
+      rewrite Forall_forall in F2. apply F2; exact Hr. }
+    rewrite Emap. cbn [map xor_all]. rewrite (xor_all_atmost1 _ (unrel_pairs outer k Hun)), existsb_map.
+    destruct (has_prefix p' k) eqn:Ep; cbn [xorb andb].
+    + (* under prefix/: under a skipped prefix iff under an outermost one *)
+      assert (E : existsb (fun e => has_prefix e k) outer = existsb (fun s => has_prefix s k) ss).
+      { apply Bool.eq_true_iff_eq. rewrite !existsb_exists. split.
+        - intros (t & Ht & Hk). exists t. split; [|exact Hk]. specialize (Hsub t Ht). apply filter_In in Hsub. apply Hsub.
+        - intros (s & Hs & Hk).
+          assert (Hps : has_prefix p' s = true).
+          { destruct (prefix_comparable _ _ _ Ep Hk) as [H|H]; [exact H|]. exfalso.
+            assert (existsb (fun s0 => has_prefix s0 p') ss = true) by (apply existsb_exists; eauto). congruence. }
+          destruct (Hcov s) as (t & Ht & Hts); [apply filter_In; split; assumption|].
+          exists t. split; [exact Ht|eapply prefix_trans; eauto]. }
+      rewrite E. destruct (existsb _ ss); reflexivity.
+    + (* outside prefix/: outside every kept skipped prefix *)
+      destruct (existsb (fun e => has_prefix e k) outer) eqn:Ee; [|reflexivity]. exfalso.
+      apply existsb_exists in Ee as (t & Ht & Hk). specialize (Hsub t Ht). apply filter_In in Hsub as [_ Hpt].
+      rewrite (prefix_trans _ _ _ Hpt Hk) in Ep. discriminate.
 Qed.
